@@ -64,6 +64,16 @@ def build(cells, only=None, prelude=PRELUDE, extra_files=None):
         src += "    };\n"
         ln += 1
     src += "}\n"
+    ln += 1
+    # declarations placed after their uses (definition-order variations)
+    for i, c in enumerate(cells):
+        if only is not None and i not in only:
+            continue
+        for d in c.get("decls_after", []):
+            n = d.count("\n") + 1
+            line_of.setdefault(i, set()).update(range(ln, ln + n))
+            src += d + "\n"
+            ln += n
     return src, line_of
 
 
@@ -84,19 +94,20 @@ def split_output(text):
     return out
 
 
-def run_cells(cells, stats, scratch, prop, prelude=PRELUDE, nontrivial=lambda c: True, payload=lambda c: c):
+def run_cells(cells, stats, scratch, prop, prelude=PRELUDE, nontrivial=lambda c: True, payload=lambda c: c, extra_files=None):
+    extra_files = extra_files or {}
     def one(i):
         s1, _ = build(cells, only={i}, prelude=prelude)
         return s1
 
     src, line_of = build(cells, prelude=prelude)
-    o = runner.run_case(scratch, {"main.capy": src}, run=False, compile_timeout=60)
+    o = runner.run_case(scratch, {"main.capy": src, **extra_files}, run=False, compile_timeout=60)
     if o.kind == "timeout":
         stats.inconclusive += 1
         return
     if o.kind == "crash":
         for i, c in enumerate(cells):
-            o1 = runner.run_case(scratch, {"main.capy": one(i)}, run=False)
+            o1 = runner.run_case(scratch, {"main.capy": one(i), **extra_files}, run=False)
             if o1.kind == "crash":
                 raise Fail(o1.crash_key, f"compiler crashed on cell `{c['desc']}`\n{o1.compiler_out[-1000:]}\n--- program ---\n{one(i)}", {"cells": [payload(c)]})
         raise Fail(o.crash_key, f"compiler crashed on the batch only\n{o.compiler_out[-1000:]}\n--- program ---\n{src}", {"cells": [payload(c) for c in cells]})
@@ -105,7 +116,7 @@ def run_cells(cells, stats, scratch, prop, prelude=PRELUDE, nontrivial=lambda c:
         # an error without a location: attribute by compiling cells alone
         errs.discard(-1)
         for i, c in enumerate(cells):
-            o1 = runner.run_case(scratch, {"main.capy": one(i)}, run=False)
+            o1 = runner.run_case(scratch, {"main.capy": one(i), **extra_files}, run=False)
             if o1.kind == "rejected":
                 errs |= line_of.get(i, set())
     accepted = set()
@@ -116,7 +127,7 @@ def run_cells(cells, stats, scratch, prop, prelude=PRELUDE, nontrivial=lambda c:
         stats.cls("cell." + c.get("cls", c["key"].split(":")[1] if ":" in c["key"] else c["key"]))
         rejected = bool(line_of.get(i, set()) & errs)
         if c["expect"] == "accept" and rejected:
-            o1 = runner.run_case(scratch, {"main.capy": one(i)}, run=False)
+            o1 = runner.run_case(scratch, {"main.capy": one(i), **extra_files}, run=False)
             raise Fail(f"{c['key']}:rejected", f"`{c['desc']}` must be accepted but is rejected\n{o1.compiler_out[-900:]}\n--- one-cell program ---\n{one(i)}", {"cells": [payload(c)]})
         if c["expect"] == "reject" and not rejected:
             raise Fail(f"{c['key']}:accepted", f"`{c['desc']}` must be rejected but no error is reported for it\n--- one-cell program ---\n{one(i)}", {"cells": [payload(c)]})
@@ -127,13 +138,13 @@ def run_cells(cells, stats, scratch, prop, prelude=PRELUDE, nontrivial=lambda c:
     if not accepted:
         return
     src2, _ = build(cells, only=accepted, prelude=prelude)
-    o2 = runner.run_case(scratch, {"main.capy": src2}, compile_timeout=60)
+    o2 = runner.run_case(scratch, {"main.capy": src2, **extra_files}, compile_timeout=60)
     if o2.kind in ("timeout", "exe-timeout"):
         stats.inconclusive += 1
         return
     if o2.kind != "ran" or o2.signal is not None:
         for i in sorted(accepted):
-            o1 = runner.run_case(scratch, {"main.capy": one(i)})
+            o1 = runner.run_case(scratch, {"main.capy": one(i), **extra_files})
             if o1.kind != "ran" or o1.signal is not None:
                 key = o1.crash_key if o1.kind == "crash" else f"{cells[i]['key']}:{o1.kind}:{o1.signal}"
                 raise Fail(key, f"cell `{cells[i]['desc']}` alone: {o1.brief()}\n{o1.compiler_out[-900:]}\n--- program ---\n{one(i)}", {"cells": [payload(cells[i])]})
